@@ -51,7 +51,7 @@ def chains_from_tlc(ck, tier, seed):
 
 def run_jobs(jobs, timeout=3000):
     wd = scratch("c16jobs")
-    env = dict(os.environ, PYTHONPATH=VERIF, PYTHONHASHSEED="0", NUMBA_NUM_THREADS="1", OMP_NUM_THREADS="1")
+    env = dict(os.environ, PYTHONPATH=core.pythonpath(), PYTHONHASHSEED="0", NUMBA_NUM_THREADS="1", OMP_NUM_THREADS="1")
     procs = []
     for i, job in enumerate(jobs):
         p = os.path.join(wd, "job%d.json" % i)
